@@ -231,3 +231,193 @@ def block3_mirror(A, b, tol, max_iter, repaired=False):
         for i in F_:
             y[i] = Fr(0)
     return dict(x=x, exit="maxiter", iters=max_iter, trace=trace, margin=margin[0], last=last, nH1=len(H1))
+
+# ------------------------------------------------------------------------------------------------
+class _Margin:
+    """smallest relative distance between the two sides of any comparison decided so far"""
+    def __init__(self):
+        self.m = None
+    def note(self, l, r, scale=None):
+        d = abs(l - r)
+        s = scale if scale is not None else max(abs(l), abs(r), Fr(1, 10**30))
+        v = d / s if s != 0 else d
+        if self.m is None or v < self.m:
+            self.m = v
+
+def remove_ordered(F, H):
+    """the in-place removal loops of nnls_normal_block / modify_factor_p (`while (F[j] != H1[i]) j++`): H must be a
+    subsequence of F; mirror of NnlsModel2.remove_ordered"""
+    out, h = [], 0
+    for f in F:
+        if h < len(H) and f == H[h]:
+            h += 1
+        else:
+            out.append(f)
+    return out
+
+def pjv_mirror(A, b, tol, escape, exit_both=True, max_trials=5, iter_factor=3):
+    """python mirror of NnlsModel2.pjv_run: nnls_normal_block (escape=True: the `|| trials < -murty_steps` disjunct) and
+    nnls_normal_block_updown (escape=False). returns dict(x, exit, iters, trace, margin, F)
+      trace: ('stuck', trials, nH1, nH2) / ('h1', index) / ('h2', index) / ('iter', k, ninf) / ('solve', nF)"""
+    n = len(b)
+    tol = Fr(tol)
+    A = [[Fr(v) for v in r] for r in A]; b = [Fr(v) for v in b]
+    x = [Fr(0)] * n
+    y = [-v for v in b]
+    F, G = [], list(range(n))
+    ninf, trials, murty = n + 1, max_trials, max_trials
+    trace = []; mg = _Margin()
+    it = iter_factor * n
+    bsc = max([abs(v) for v in b] + [Fr(1, 10**30)])
+    xsc = Fr(1, 10**30)
+    while it > 0:
+        it -= 1
+        H1, H2 = [], []
+        for i in F:
+            mg.note(x[i], -tol, xsc)
+            if x[i] < -tol:
+                H1.append(i)
+        for i in G:
+            mg.note(y[i], -tol, bsc)
+            if y[i] < -tol:
+                H2.append(i)
+        if (not H1 and not H2) if exit_both else (not H2):
+            return dict(x=x, exit="kkt", iters=iter_factor * n - it - 1, trace=trace, margin=mg.m, F=F)
+        if ninf <= murty:
+            trials = -1
+        nH = len(H1) + len(H2)
+        if ninf > murty and (nH < ninf or (escape and trials < -murty)):
+            if nH <= ninf:
+                murty += 1
+            ninf = nH
+            trials = max_trials
+        else:
+            trials -= 1
+            trace.append(("stuck", trials, len(H1), len(H2)))
+            if trials < 0:
+                if not H2 or (H1 and H1[-1] > H2[-1]):
+                    H1, H2 = ([H1[-1]] if H1 else []), []
+                    if H1:
+                        trace.append(("h1", H1[0]))
+                else:
+                    H1, H2 = [], [H2[-1]]
+                    trace.append(("h2", H2[0]))
+        trace.append(("iter", iter_factor * n - it, ninf))
+        G = G + H1
+        F = remove_ordered(F, H1)
+        F = F + H2
+        G = remove_ordered(G, H2)
+        G.sort(); F.sort()
+        trace.append(("solve", len(F)))
+        xF = solve_sub(A, b, F)
+        if xF is None:
+            return dict(x=x, exit="singular", iters=iter_factor * n - it, trace=trace, margin=mg.m, F=F)
+        xsc = max([abs(v) for v in xF] + [Fr(1, 10**30)])
+        for a, i in enumerate(F):
+            x[i] = xF[a]
+        for i in G:
+            x[i] = Fr(0)
+        for i in F:
+            y[i] = Fr(0)
+        for i in G:
+            y[i] = sum((A[i][j] * xF[a] for a, j in enumerate(F)), Fr(0)) - b[i]
+    return dict(x=x, exit="maxiter", iters=iter_factor * n, trace=trace, margin=mg.m, F=F)
+
+def lh_mirror(A, b, tolerance, min_iterations, max_iterations, npos=0, fuel=None):
+    """python mirror of NnlsModel2.lh_run (nnls_lawson_hanson with normaleq != 0). returns dict(x, exit, iters, trace, margin, P, Z,
+    last_freed); exit: 'allpassive' (nZ == 0) | 'wmax' (wmax <= 0) | 'tol' | 'equilibrium' (alpha == 0) | 'maxiter' | 'mathfailed'
+    | 'singular' | 'innerfuel'; trace: ('free', index, nZ, nP) / ('bind', index, nZ, nP)"""
+    n = len(b)
+    tolerance = Fr(tolerance)
+    A = [[Fr(v) for v in r] for r in A]; b = [Fr(v) for v in b]
+    if npos == 0:
+        npos = n
+    Z = list(range(npos)); P = list(range(npos, n))
+    x = [Fr(0)] * n
+    last_freed = None
+    trace = []; mg = _Margin()
+    bsc = max([abs(v) for v in b] + [Fr(1, 10**30)])
+    it = 0
+    def res(e):
+        return dict(x=x, exit=e, iters=it, trace=trace, margin=mg.m, P=P, Z=Z, last_freed=last_freed)
+    while it < max_iterations or max_iterations == 0:
+        w = [b[i] - sum((A[i][j] * x[j] for j in range(n) if x[j] != 0), Fr(0)) for i in range(n)]
+        if not Z:
+            return res("allpassive")
+        wmax = w[Z[0]]; t = 0
+        for i in range(1, len(Z)):
+            if last_freed != Z[i]:
+                mg.note(w[Z[i]], wmax, bsc)
+            if w[Z[i]] > wmax and last_freed != Z[i]:
+                t = i; wmax = w[Z[t]]
+        mg.note(wmax, Fr(0), bsc)
+        if wmax <= 0:
+            return res("wmax")
+        mg.note(wmax, tolerance, bsc)
+        if wmax < tolerance and it >= min_iterations:
+            if not P:
+                return res("tol")
+            wpmin = min(w[i] for i in P)
+            if -wpmin < tolerance:
+                return res("tol")
+        trace.append(("free", Z[t], len(Z), len(P)))
+        last_freed = Z[t]
+        alpha = Fr(-1)
+        P = P + [Z[t]]
+        Z = Z[:t] + Z[t + 1:]
+        inner = 0
+        while True:
+            inner += 1
+            if inner > 2 * n + 2:
+                return res("innerfuel")
+            p = solve_sub(A, b, P)
+            if p is None:
+                return res("singular")
+            psc = max([abs(v) for v in p] + [abs(x[i]) for i in P] + [Fr(1, 10**30)])
+            bad = False
+            for a, i in enumerate(P):
+                if i < npos:
+                    mg.note(p[a], Fr(0), psc)
+                    if p[a] <= 0:
+                        bad = True; break
+            if not bad:
+                x = [Fr(0)] * n
+                for a, i in enumerate(P):
+                    x[i] = p[a]
+                break
+            alpha = Fr(2); qmax = None
+            for a, i in enumerate(P):
+                if i >= npos or p[a] > 0:
+                    continue
+                mg.note(p[a], Fr(0), psc)
+                den = x[i] - p[a]
+                qtemp = x[i] / den if den != 0 else Fr(0)        # 0/0: NaN in C, 0 in Qc — both fail `qtemp < alpha && qtemp != 0`
+                if den != 0:
+                    mg.note(qtemp, alpha, Fr(1))
+                if den != 0 and qtemp < alpha and qtemp != 0:
+                    qmax = i; alpha = qtemp
+                elif last_freed == i:
+                    alpha = Fr(0); qmax = i
+                    break
+            if qmax is None:
+                return res("mathfailed")
+            for a, i in enumerate(P):
+                x[i] = x[i] + alpha * (p[a] - x[i])
+            x[qmax] = Fr(0)
+            newP = []
+            for i in P:
+                if i < npos:
+                    mg.note(x[i], Fr(0), psc)
+                if i >= npos or x[i] > 0:
+                    newP.append(i)
+                    continue
+                trace.append(("bind", i, len(Z), len(newP) + (len(P) - P.index(i))))
+                x[i] = Fr(0)
+                Z = Z + [i]
+            P = newP
+            if alpha == 0:
+                break
+        if alpha == 0:
+            return res("equilibrium")
+        it += 1
+    return res("maxiter")
